@@ -69,7 +69,7 @@ int vd_cmp_main(int argc, char **argv)
                 if (variant == 3) { clear_flags(b, 0); vb_stale_keys(a, 0); vb_stale_keys(b, 1); }
                 if (variant == 4) { vb_stale_clear(a); vb_stale_clear(b); vb_stale_keys(a, 2); }
                 if (variant == 5) { vb_stale_clear(a); vb_stale_keys(a, 3); vb_stale_keys(b, 0); }
-                csv = vb_truthy(cs, (unsigned long)VD.cases + (unsigned long)variant);
+                csv = vb_truthy(cs, vd_salt() + (unsigned long)variant);
                 ha = vb_hash(a, 0); hb = vb_hash(b, 0); live = al_live;
                 al_in_call = 1; al_window(0);
                 r1 = cJSON_Compare(a, b, csv); r2 = cJSON_Compare(b, a, csv);
